@@ -263,6 +263,18 @@ def rule_norms(rep, pdb):
                 ok = ok and reinit
                 det += "; accumulator reset per outer iteration=%s" % reinit
         rep.add(key, rule, ok, fn["body"], det, where=loc(fn["body"]))
+        # shortcuts: an early return is the general formula specialised - `norm_max()` is the max of sums of ONE term only when
+        # the summed dimension is 1; 0 only when a dimension is 0
+        from .guards import facts as _facts
+        for r_ in [n for n in walk(fn["body"]) if n.get("k") == "Ret" and not any(a.get("k") == "Closure" for a in _anc(n))]:
+            fs = _facts(ctx, r_)
+            val = ctx.term(r_["e"]) if r_.get("e") is not None else None
+            one = any(f[0] == "cmp" and f[1] == "==" and {f[2], f[3]} == {inner_dim, num(1)} for f in fs)
+            zero = any(f[0] == "cmp" and f[1] == "==" and ({f[2], f[3]} == {inner_dim, num(0)} or {f[2], f[3]} == {outer_dim, num(0)}) for f in fs)
+            good = (val is not None and val[0] == "call" and str(val[1]).endswith("::norm_max") and val[2] == P(0) and one) or (val == num(0) and zero)
+            rep.add("%s/shortcut@%s" % (key, "one" if one else "zero" if zero else "other"),
+                    "an early return of %s is the formula specialised: norm_max() only when the SUMMED dimension (%s) is 1, 0 only when a dimension is 0" % (name, "rows" if inner_dim == ROWS else "cols"),
+                    good, r_, "returns %s under %s" % (show(val, ctx) if val else None, [show(("op", f[1], f[2], f[3]), ctx) for f in fs if f[0] == "cmp"][:4]))
     # norm_max
     fn = _need(rep, pdb, "%s::norm_max" % M64, "norm-orientation/norm_max", "norm_max = max over all entries of |a_ij|")
     if fn is not None:
@@ -558,6 +570,18 @@ def rule_editing(rep, pdb):
                 ok = ok and before
                 det += "; old contents cloned before replacement: %s" % before
         rep.add("shape/resize", rule, ok, fn["body"], det, where=loc(fn["body"]))
+    # frame: each editing operation writes only the fields its definition changes
+    from .common import rule_frame
+    FRAME = {"set_row": {"mat"}, "set_col": {"mat"}, "swap_rows": {"mat"}, "swap_cols": {"mat"}, "swap_elem": {"mat"}, "fill": {"mat"}, "fill_diag": {"mat"},
+             "fill_band": {"mat"}, "fill_tridiag": {"mat"}, "fill_row": {"mat"}, "fill_col": {"mat"}, "delete_row": {"mat", "rows"}, "delete_col": {"mat", "cols"},
+             "transpose_in_place": {"mat", "rows", "cols", "*"}, "resize": {"mat", "rows", "cols", "*"}}
+    n_frame = 0
+    for nm, allowed in sorted(FRAME.items()):
+        f_ = pdb.fn("%s::%s" % (M, nm))
+        if f_ is not None:
+            rule_frame(rep, pdb, "edit/frame/%s" % nm, f_, allowed, "%s::%s" % (M, nm))
+            n_frame += 1
+    rep.floor("edit/frame/", 10)
     # Matrix::new shape
     rule = "new(r,c,e) pushes exactly r*c clones of e and records rows=r, cols=c"
     fn = _need(rep, pdb, "%s::new" % M, "shape/new", rule)
